@@ -16,8 +16,38 @@ from vlib import hx, hxl
 
 ID = 'C20'
 COMPONENTS = ['codecs']
-THEOREMS = []          # filled below (kept in one place with Props/C20.v)
-ALLOWED_AXIOMS = set()
+THEOREMS = [
+    'C20_radix_no_panic',
+    'C20_radix_invalid_digit_iff',
+    'C20_radix_value_exact',
+    'C20_radix_nonvacuous',
+    'C20_radix_orig_panic_refuted',
+    'C20_radix_orig_long_refuted',
+    'C20_radix_long_witness',
+    'C20_base64_decode_encode',
+    'C20_base64_string_roundtrip',
+    'C20_base64_alphabet_padding',
+    'C20_base64_rejects_exactly',
+    'C20_base64_nonvacuous',
+    'C20_utf8_decode_encode',
+    'C20_utf8_encode_valid',
+    'C20_decode_utf8_is_lossy',
+    'C20_utf8_nonvacuous',
+    'C20_json_rejects_dup_keys',
+    'C20_json_rejects_control_chars',
+    'C20_json_rejects_leading_zero',
+    'C20_json_rejects_trailing',
+    'C20_json_ws_exact',
+    'C20_json_nonvacuous',
+    'C20_bash_unescape_escape',
+    'C20_xml_escape_no_specials',
+    'C20_dollars_doubling',
+    'C20_esc_nonvacuous',
+]
+# real-number axioms of Coq's standard library, reached through Flocq by C20_radix_value_exact only
+# (finiteness of the nearest-even double of an integer below 2^128)
+ALLOWED_AXIOMS = {'ClassicalDedekindReals.sig_not_dec', 'ClassicalDedekindReals.sig_forall_dec',
+                  'FunctionalExtensionality.functional_extensionality_dep', 'Classical_Prop.classic'}
 TRANSLATORS = []
 
 MANIFEST_RS = 'rsjsonnet-lang/src/program/eval/manifest.rs'
